@@ -32,10 +32,14 @@ package jsonrpc
 //@ func (*Server).parseParam
 //@   trusted
 //@   logged
+// A registered method's parameter names are pairwise distinct (a registration-time fact, assumed here).
+//@ pure hidden func distinctParams(ps []Parameter) bool = forall i int, j int :: 0 <= i && i < j && j < len(ps) ==> ps[i].Name != ps[j].Name
 //@ func (*Server).buildArguments
 //@   props C11
 //@   arith int
 //@   nosafe
+//@   requires distinct_names: distinctParams(method.Params)
+//@   reveal distinctParams
 //@   modifies maps
 //@   assigns calls_parseParam, arg_parseParam_param, arg_parseParam_t
 //@   logged
@@ -45,11 +49,14 @@ package jsonrpc
 //@   loop 2: invariant own_args: fresh(args)
 //@   loop 3: invariant own_args: fresh(args)
 //@   loop 4: invariant own_args: fresh(args)
+//@   loop 4: invariant idx: -1 <= rangeindex && rangeindex < len(method.Params)
+//@   loop 4: invariant nothing_added: forall k string :: in(paramsMap, k) ==> old(in(paramsMap, k)) && paramsMap[k] == old(paramsMap[k])
+//@   loop 4: invariant only_bound_names_removed: forall k string :: old(in(paramsMap, k)) && !in(paramsMap, k) ==> (exists j int :: 0 <= j && j <= rangeindex && method.Params[j].Name == k)
 //@   loop 5: invariant own_keys: fresh(remainingKeys)
-//@   callsite errors.New@3: missing_only_if_absent: !found && !configuredParam.Optional
-//@   callsite reflect.New@1: zero_only_if_absent: !found && configuredParam.Optional
+//@   callsite errors.New@3: missing_only_if_absent: !old(in(paramsMap, configuredParam.Name)) && !configuredParam.Optional
+//@   callsite reflect.New@1: zero_only_if_absent: !old(in(paramsMap, configuredParam.Name)) && configuredParam.Optional
 //@   callsite parseParam@2: positional_as_sent: $1 == param
-//@   callsite parseParam@1: named_as_sent: found && $1 == param
+//@   callsite parseParam@1: named_as_sent: old(in(paramsMap, configuredParam.Name)) && $1 == old(paramsMap[configuredParam.Name])
 //@ extern func reflect.ValueOf
 //@ extern func reflect.(Value).Call
 //@   logged as Call
@@ -71,6 +78,7 @@ package jsonrpc
 //@   arith int
 //@   nosafe
 //@   requires s != nil && req != nil && s.methods != nil && s.listener != nil && s.logger != nil
+//@   requires registered_distinct: forall m string :: in(s.methods, m) ==> distinctParams(s.methods[m].Params)
 //@   modifies *
 //@   assigns buildOK, builtArgs, calls_Call, arg_Call_in, calls_buildArguments, arg_buildArguments_ctx, arg_buildArguments_params, arg_buildArguments_method
 //@   ensures insane: !old(sane(*req)) ==> result0 == nil && result2 != nil && calls_Call == old(calls_Call)
@@ -99,6 +107,7 @@ package jsonrpc
 //@   arith int
 //@   nosafe
 //@   requires *s != nil && *req != nil && (*s).methods != nil && (*s).listener != nil && (*s).logger != nil
+//@   requires registered_distinct: forall m string :: in((*s).methods, m) ==> distinctParams((*s).methods[m].Params)
 //@   modifies *
 //@   assigns buildOK, builtArgs, calls_Call, arg_Call_in, calls_buildArguments, arg_buildArguments_ctx, arg_buildArguments_params, arg_buildArguments_method
 //@   callsite addResponse@*: is_a_response: istype($0, *response) && cast($0, *response) != nil
